@@ -212,7 +212,7 @@ def main():
         surv = [m for m in prev if m.get("survived_tests")]
         props = [c["property_id"] for c in json.load(open("/verif/MANIFEST.json"))["checks"]]
         still = []
-        with ProcessPoolExecutor(max_workers=14) as ex:
+        with ProcessPoolExecutor(max_workers=int(os.environ.get("MUTSWEEP_JOBS", "14"))) as ex:
             for (mid, status, fired), m in zip(ex.map(_static, [(m, props) for m in surv], chunksize=2), surv):
                 if not fired:
                     still.append(m)
@@ -232,13 +232,13 @@ def main():
     props = [c["property_id"] for c in json.load(open("/verif/MANIFEST.json"))["checks"]]
     os.makedirs(OUT, exist_ok=True)
     res = {m["id"]: dict(m) for m in muts}
-    with ProcessPoolExecutor(max_workers=14) as ex:
+    with ProcessPoolExecutor(max_workers=int(os.environ.get("MUTSWEEP_JOBS", "14"))) as ex:
         for mid, status, fired in ex.map(_static, [(m, props) for m in muts], chunksize=2):
             res[mid]["static"] = status
             res[mid]["fired"] = fired
     undetected = [m for m in muts if res[m["id"]]["static"] == "ok" and not res[m["id"]]["fired"]]
     print(f"mutants {len(muts)}; flagged by a check {sum(1 for m in muts if res[m['id']].get('fired'))}; undetected {len(undetected)} -> running the suite on those")
-    with ProcessPoolExecutor(max_workers=14) as ex:
+    with ProcessPoolExecutor(max_workers=int(os.environ.get("MUTSWEEP_JOBS", "14"))) as ex:
         for mid, survived, tail in ex.map(_tests, undetected):
             res[mid]["survived_tests"] = survived
             res[mid]["tests_tail"] = tail
